@@ -51,7 +51,7 @@ def pattern(nd, size, kind, rng):
         return [b'\xff' * size for i in range(nd)]
     if kind == 'onehot':     # a single non-zero disk
         k = rng.randrange(nd)
-        return [bytes(range(256))[:size] * (size // min(size, 256)) if i == k else bytes(size) for i in range(nd)]
+        return [bytes(c & 255 for c in range(size)) if i == k else bytes(size) for i in range(nd)]
     return [bytes(rng.getrandbits(8) for _ in range(size)) for i in range(nd)]
 
 
